@@ -26,7 +26,7 @@ META = dict(
     outside="the file formats themselves (quoting, delimiters inside fields, unicode, float text formatting) are not seen by the solver: the channel contract only "
             "holds if reader and writer get the same csv dialect parameters, which IS an obligation; in addition a concrete cross-check on the real build, run with every "
             "check, round-trips labels / annotator names with leading and trailing blanks, quotes, delimiters, tabs and unicode under four delimiters (a test, not part "
-            "of the solver claim); duplicate tier names",
+            "of the solver claim); duplicate tier names; intervals of different tiers with the same times and the same mark (one unit: the continuum is a set per annotator, C13)",
     stubs=["csv.writer / csv.reader / open = in-memory channel", "textgrid.TextGrid, pympi.Eaf, load_rttm = objects exposing symbolic tiers / tracks"],
     assumptions=["labelled units (an unlabelled unit is written as an empty field and read back as the label '')", "intervals of one tier do not overlap"],
     cfg_budget_s=dict(quick=200, thorough=900),
@@ -244,8 +244,9 @@ def harness(cfg, ns):
                     ctx.solver.add(a.e >= prev_end.e)        # intervals of one tier do not overlap (format invariant)
                 prev_end = b
                 # marks: a blank-only one and one padded with blanks (both are non-empty annotations and are the label, blanks included),
-                # an empty one, a plain one
-                mark = ["m%d%d" % (t, i), ""][(t + i) % 2] if i == 1 else [" ", " m%d%d " % (t, i)][t % 2]
+                # an empty one, a plain one.  Marks differ from tier to tier (one / two blanks): two intervals of different tiers with the
+                # same times AND the same mark are one unit of the continuum (a set per annotator, C13) - that case is outside this check
+                mark = ["m%d%d" % (t, i), ""][(t + i) % 2] if i == 1 else [" " * (1 + t // 2), " m%d%d " % (t, i)][t % 2]
                 ivs.append((a, b, mark))
                 inputs += [a, b]
             T[f"t{t}"] = ivs
